@@ -304,18 +304,27 @@ def check_multi_tag(mtag):
     errors = check_entity(mtag)
     warnings = list()
 
-    if not mtag.positions:
+    try:
+        positions = mtag.positions
+    except RuntimeError:
+        # the positions array has been deleted
+        positions = None
+    if not positions:
         errors.append(ValidationError.NoPositions)
     if mtag.references:
-        if len(mtag.positions.shape) == 1:
+        if positions is None:
+            posshape = (0,)
+        else:
+            posshape = positions.shape
+        if len(posshape) == 1:
             posdim = 1
         else:
-            posdim = mtag.positions.shape[1]
+            posdim = posshape[1]
         # New error for len(mtag.positions.shape) > 2
         if any(posdim != len(da.shape) for da in mtag.references):
             errors.append(ValidationError.PositionsDimensionMismatch)
         if mtag.extents:
-            if mtag.positions.shape != mtag.extents.shape:
+            if posshape != mtag.extents.shape:
                 errors.append(ValidationError.PositionsExtentsMismatch)
             if len(mtag.extents.shape) == 1:
                 extdim = 1
